@@ -24,6 +24,7 @@ import typing as T
 import zlib
 
 from . import common
+from . import c11_e2e
 from .common import Ctx, enc
 
 ID = 'C11'
@@ -62,13 +63,20 @@ PINS = [
     'mesonbuild.scripts:destdir_join',
     'mesonbuild.scripts.uninstall:do_uninstall',
     'mesonbuild.utils.universal:FileMode.perms_s_to_bits',
+    'mesonbuild.backend.backends:Backend.generate_subdir_install',
+    'mesonbuild.backend.backends:Backend.generate_data_install',
+    'mesonbuild.backend.backends:Backend.generate_header_install',
+    'mesonbuild.backend.backends:Backend.generate_man_install',
+    'mesonbuild.backend.backends:Backend.generate_emptydir_install',
+    'mesonbuild.backend.backends:Backend.generate_symlink_install',
+    'mesonbuild.backend.backends:Backend.guess_install_tag',
 ]
 TRUSTED = [
     'POSIX kernel path resolution is the lexical key of the model as long as no intermediate component is a symlink '
     'and no `..` crosses a missing directory (inputs with `..` are checked by the oracle only)',
     'os.walk order of a source directory is recorded by the harness and given to the model',
     'domain: names without newline, without Unicode white space; file destinations without trailing slash; '
-    'symlinks only as leaves; '
+    'symlinks only as leaves; owner/group requests are not combined with setuid/setgid permissions (chown clears them); '
     'chown/strip/rpath/install scripts/SELinux/stamp files not exercised',
 ]
 
@@ -965,6 +973,13 @@ def gen_case(rng: random.Random, idx: int, kind: str) -> dict:
     else:
         ops = [base_op]
     spec['ops'] = ops
+    # chown is a parameter of the property (not modelled): the kernel clears setuid/setgid bits on chown, so a plan
+    # does not mix owner/group requests with setuid/setgid permission strings
+    allents = [e for k in ('subdirs', 'targets', 'headers', 'man', 'data', 'emptydirs') for e in spec.get(k, [])]
+    if any(e.get('mode') and ('owner' in e['mode'] or 'group' in e['mode']) for e in allents):
+        for e in allents:
+            if e.get('mode') and e['mode'].get('perms') and any(c in e['mode']['perms'] for c in 'sS'):
+                e['mode'] = dict(e['mode'], perms='rwxr-xr-x')
     return spec
 
 
@@ -1269,6 +1284,8 @@ def run(ctx: Ctx) -> None:
     cases = make_cases(ctx)
     results = execute(ctx, cases)
     judge(ctx, results)
+    # second stream: build definition -> meson setup -> meson install, judged against Installing.md
+    c11_e2e.run_stream(ctx, scratch_base, ctx.scale(28, 250))
     ctx.assumptions += TRUSTED
 
 
@@ -1313,6 +1330,10 @@ def search(ctx: Ctx, disagreements: T.List[dict]) -> None:
 
 def replay(ctx: Ctx, rep: dict) -> None:
     case = rep.get('case', {})
+    if case.get('e2e'):
+        c11_e2e.replay_e2e(ctx, case['e2e'], scratch_base)
+        print('violations:', json.dumps(ctx.violations, default=repr)[:2000])
+        return
     spec = case.get('spec')
     if not spec:
         print('nothing to replay in', list(rep))
